@@ -6,6 +6,9 @@
 (* Stream mode (MuxStreamAbs): a trace is the life of one connection of the   *)
 (* real client stack -- dispatches supplied (Sup), byte chunks accepted by    *)
 (* the connection (Bytes), Closed, End -- judged by the stream machine.       *)
+(* Sup has k = "dispatch" (ctx, payload) or k = "discard" (payload of the     *)
+(* call whose timeout is handed to the transport); cfg.supdisc = 1 iff the    *)
+(* driver observes supplied discards.                                         *)
 EXTENDS MuxStreamAbs, Json, IOUtils
 
 Traces == ndJsonDeserialize(IOEnv.TRACE_FILE)
@@ -19,21 +22,22 @@ TInit == /\ tid \in 1..Len(Traces)
          /\ l = 1
          /\ verdict = "ok"
          /\ AInit
-         /\ SInit
+         /\ SInitS("supdisc" \in DOMAIN Traces[tid].cfg /\ Traces[tid].cfg.supdisc = 1)
 
 CheckOf(e) ==
   CASE e.e = "Disp" -> DispCheck(e)
     [] e.e = "Disc" -> DiscCheck(e)
     [] e.e = "Ping" -> PingCheck(e)
     [] e.e = "Hdr"  -> HdrCheck(e)
-    [] e.e = "Sup"    -> SupCheck(e.ctx, e.payload)
+    [] e.e = "Sup"    -> IF e.k = "discard" THEN SupDiscCheck(e.payload) ELSE SupCheck(e.ctx, e.payload)
     [] e.e = "Bytes"  -> BytesCheck(e.data)
     [] e.e = "Closed" -> ClosedCheck(e.mid)
     [] e.e = "End"    -> EndCheck
     [] OTHER -> "harness.unknownEvent"
 
 UpdOf(e) ==
-  CASE e.e = "Sup"    -> SupUpd(e.ctx, e.payload) /\ UNCHANGED avars
+  CASE e.e = "Sup"    -> (IF e.k = "discard" THEN SupDiscUpd(e.payload) ELSE SupUpd(e.ctx, e.payload))
+                         /\ UNCHANGED avars
     [] e.e = "Bytes"  -> BytesUpd(e.data) /\ UNCHANGED avars
     [] e.e = "Closed" -> ClosedUpd(e.mid) /\ UNCHANGED avars
     [] e.e = "End"    -> EndUpd /\ UNCHANGED avars
